@@ -69,7 +69,7 @@ fn pos_at<I: InputIndexer>(input: &I, off: usize) -> I::Position {
 // Utf8Input: every primitive, from every boundary position
 // ------------------------------------------------------------------------------------------
 
-// @verif props=C06,C15 tier=quick timeout=1200 unwind=5 bound="haystack <= 3 symbolic scalar values (all UTF-8 widths), every boundary position" funcs="Utf8Input::next_right,next_right_pos,peek_right,peek_byte_right,pos_to_offset,try_move_right,getb"
+// @verif props=C06,C15 tier=quick timeout=1200 unwind=5 c15q=all bound="haystack <= 3 symbolic scalar values (all UTF-8 widths), every boundary position" funcs="Utf8Input::next_right,next_right_pos,peek_right,peek_byte_right,pos_to_offset,try_move_right,getb"
 #[kani::proof]
 #[kani::unwind(5)]
 fn c06_utf8_forward() {
@@ -110,7 +110,7 @@ fn c06_utf8_forward() {
     kani::cover!(i == hy.n, "at right end");
 }
 
-// @verif props=C06,C15 tier=quick timeout=1200 unwind=5 bound="haystack <= 3 symbolic scalar values (all UTF-8 widths), every boundary position" funcs="Utf8Input::next_left,next_left_pos,peek_left,peek_byte_left,try_move_left"
+// @verif props=C06,C15 tier=quick timeout=1200 unwind=5 c15q=all bound="haystack <= 3 symbolic scalar values (all UTF-8 widths), every boundary position" funcs="Utf8Input::next_left,next_left_pos,peek_left,peek_byte_left,try_move_left"
 #[kani::proof]
 #[kani::unwind(5)]
 fn c06_utf8_backward() {
@@ -150,7 +150,7 @@ fn c06_utf8_backward() {
 }
 
 // subinput / subrange_eq (the backreference primitive), both directions.
-// @verif props=C06,C15 tier=quick timeout=1500 unwind=14 bound="haystack <= 3 symbolic scalars; captured range i..j and position k on boundaries" funcs="Utf8Input::subrange_eq,subinput,str_slice,slice"
+// @verif props=C06,C15 tier=quick timeout=1500 unwind=14 c15q=all bound="haystack <= 3 symbolic scalars; captured range i..j and position k on boundaries" funcs="Utf8Input::subrange_eq,subinput,str_slice,slice"
 #[kani::proof]
 #[kani::unwind(14)]
 fn c06_utf8_subrange_eq() {
@@ -231,13 +231,13 @@ fn match_bytes_body<const N: usize>() {
     kani::cover!(!r && fits, "literal mismatched");
 }
 
-// @verif props=C06,C15 tier=quick timeout=900 unwind=8 bound="literal of 1 symbolic byte, haystack <= 3 symbolic scalars, both directions" funcs="Utf8Input::match_bytes"
+// @verif props=C06,C15 tier=quick timeout=900 unwind=8 c15q=all bound="literal of 1 symbolic byte, haystack <= 3 symbolic scalars, both directions" funcs="Utf8Input::match_bytes"
 #[kani::proof]
 #[kani::unwind(8)]
 fn c06_utf8_match_bytes_1() {
     match_bytes_body::<1>();
 }
-// @verif props=C06,C15 tier=quick timeout=900 unwind=8 bound="literal of 3 symbolic bytes, haystack <= 3 symbolic scalars, both directions" funcs="Utf8Input::match_bytes"
+// @verif props=C06,C15 tier=quick timeout=900 unwind=8 c15q=all bound="literal of 3 symbolic bytes, haystack <= 3 symbolic scalars, both directions" funcs="Utf8Input::match_bytes"
 #[kani::proof]
 #[kani::unwind(8)]
 fn c06_utf8_match_bytes_3() {
@@ -260,7 +260,7 @@ fn c06_utf8_match_bytes_16() {
 // AsciiInput vs Utf8Input on ASCII bytes (C13-H1), and AsciiInput's own safety (C06)
 // ------------------------------------------------------------------------------------------
 
-// @verif props=C13,C06,C15 tier=quick timeout=1200 unwind=6 bound="haystack <= 3 symbolic ASCII bytes, every position" funcs="AsciiInput::next_right,next_left,next_right_pos,next_left_pos,peek_byte_right,peek_byte_left,pos_to_offset;Utf8Input::same"
+// @verif props=C13,C06,C15 tier=quick timeout=1200 unwind=6 c15q=all bound="haystack <= 3 symbolic ASCII bytes, every position" funcs="AsciiInput::next_right,next_left,next_right_pos,next_left_pos,peek_byte_right,peek_byte_left,pos_to_offset;Utf8Input::same"
 #[kani::proof]
 #[kani::unwind(6)]
 fn c13_ascii_vs_utf8_primitives() {
